@@ -141,6 +141,20 @@ func runC15(o *out, r *rng, thorough bool, rp string) {
 			head = line[finIdx]
 			headKind = "at-base"
 		}
+		if finIdx >= 1 && r.chance(30) {
+			// a fork that left the line BEFORE the finalized base and has a tipset at exactly the base's epoch
+			p := line[finIdx-1]
+			ep := line[finIdx].epoch
+			for k := 0; k < 2+r.intn(3); k++ {
+				ts := &mTipset{key: fmt.Sprintf("s%d", k), epoch: ep, parent: p.key, ts: t0.Add(time.Duration(ep) * 30 * time.Second),
+					pt: ecTables[r.intn(len(ecTables))], beacon: []byte(fmt.Sprintf("beacon-s%d", k))}
+				mec.add(ts)
+				p = ts
+				ep += int64(1 + r.intn(2))
+			}
+			head = p
+			headKind = "fork-sibling-at-base-epoch"
+		}
 		mec.head = head.key
 		clk := clock.NewMock()
 		now := head.ts.Add(time.Duration(r.intn(90)) * time.Second)
